@@ -17,8 +17,7 @@
     * hundredths-transition     `datetime_to_time` keeps the hundredths and
                                 `Time.now` does not report a hundredth early
 
-  Own Gregorian arithmetic (no library): `isLeap`, `monthLen`, `dayNum`
-  (closed form), `succDay`, `civil` (iterated successor; this is the model of
+  Own Gregorian arithmetic (no library): `isLeap`, `monthLen`, `dayNum`, `succDay`, `civil` (iterated successor; this is the model of
   `time.localtime` under TZ=UTC) — `time.mktime` is `dayNum`.
 
   Conventions: a BACnet date is the tuple (year-1900, month, day, day-of-week
@@ -98,8 +97,9 @@ def daysBeforeMonth (y m : Nat) : Nat :=
   | _ => 0
 
 /-- days from 1900-01-01 to the first of January of year 1900+y -/
-def daysBeforeYear (y : Nat) : Nat :=
-  365 * y + ((1899 + y) / 4 + (1899 + y) / 400 - (1899 + y) / 100) - 460
+def daysBeforeYear : Nat → Nat
+  | 0 => 0
+  | y + 1 => daysBeforeYear y + (if isLeap y then 366 else 365)
 
 /-- ordinal of a date, 1900-01-01 ↦ 0 (the day part of `time.mktime`, TZ=UTC) -/
 def dayNum (y m d : Nat) : Nat := daysBeforeYear y + daysBeforeMonth y m + d - 1
